@@ -217,7 +217,7 @@ class Grid:
         # Convert all inputs to axes-kwarg mappings
         # TODO We need a way here to check valid input. Maybe also in _as_axis_kwargs?
         # Parse axis properties
-        boundary_dict = self._map_kwargs_over_axes(boundary, axes=all_axes)
+        boundary_dict = dict(self._map_kwargs_over_axes(boundary, axes=all_axes))
         # TODO: In the future we want this the only place where we store these.
         # TODO: This info needs to then be accessible to e.g. pad()
 
@@ -230,7 +230,7 @@ class Grid:
             periodic_dict = self._map_kwargs_over_axes(periodic, axes=all_axes)
 
         for ax, p in periodic_dict.items():
-            if boundary_dict[ax] is None:
+            if boundary_dict.get(ax) is None:
                 if p is True:
                     boundary_dict[ax] = "periodic"
                 else:
